@@ -41,6 +41,33 @@ type histUser struct {
 	Items []string
 }
 
+type histAccount struct {
+	Name  string
+	Qty   int
+	Extra any
+	Next  *histAccount
+}
+
+// histShared lives as long as the process, like data kept by a server between requests
+var histShared = &histAccount{Name: "shared", Qty: 2, Next: &histAccount{Name: "next", Qty: 3}}
+
+func histItemA() any {
+	type histItem struct {
+		Name string
+		Qty  int
+	}
+	return histItem{Name: "Go", Qty: 90}
+}
+
+func histItemB() any {
+	type histItem struct {
+		Pages int
+		Qty   string
+		Name  []string
+	}
+	return &histItem{Pages: 7, Qty: "many", Name: []string{"n1", "n2"}}
+}
+
 type histEnv struct {
 	dir, ext      string
 	debug         bool
@@ -70,6 +97,8 @@ func histFiles(ext string) map[string]string {
 		"goodloop" + ext:        "<ul>@each(u in users)<li>{{ u.name }}</li>@end</ul>@for(k = 0; k < 2; k++)[{{ k }}]@end",
 		"badfor" + ext:          "@for(k = 0; k < 4; k++)[{{ 6 / (2 - k) }}]@end",
 		"errors/broken" + ext:   "broken error page {{ reason }}",
+		"args" + ext:            "{{ word.at(-back) }}|{{ shown.then(!muted, \"n/a\") }}|{{ -n }}|{{ word.at(back - 1) }}|{{ [1, 2, 3].slice(-(back), 3) }}|@each(w in [word])@if(!muted){{ w.repeat(-(-back)) }}@end@end",
+		"item" + ext:            "item {{ it.name }}/{{ it.qty }} {{ it }}",
 	}
 }
 
@@ -151,6 +180,30 @@ func histOps() []histOp {
 			return map[string]any{"users": []map[string]any{{"name": "zed"}}}
 		})},
 		{"Response(badfor: 3rd pass fails)", resp("badfor", noData)},
+		// the same loaded call sites with other argument values
+		{"String(args, back=1 muted=false)", str("args", func() map[string]any {
+			return map[string]any{"word": "stair", "back": 1, "shown": true, "muted": false, "n": 4}
+		})},
+		{"String(args, back=3 muted=true)", str("args", func() map[string]any {
+			return map[string]any{"word": "stair", "back": 3, "shown": true, "muted": true, "n": -4}
+		})},
+		// two different struct types that print the same type name
+		{"String(item, local type A)", str("item", func() map[string]any { return map[string]any{"it": histItemA()} })},
+		{"String(item, local type B)", str("item", func() map[string]any { return map[string]any{"it": histItemB()} })},
+		// one long-lived pointer: first holding an unsupported value (the call fails), then repaired
+		{"String(item, shared pointer holding a chan)", str("item", func() map[string]any {
+			histShared.Extra = make(chan int)
+			return map[string]any{"it": histShared}
+		})},
+		{"String(item, shared pointer repaired)", str("item", func() map[string]any {
+			histShared.Extra = nil
+			return map[string]any{"it": histShared}
+		})},
+		{"EvaluateString(shared pointer repaired)", func(h *histEnv) string {
+			histShared.Extra = "fine"
+			out, err := textwire.EvaluateString("{{ it.name }} {{ it.extra }} {{ it.next.name }}", map[string]any{"it": histShared})
+			return fmt.Sprintf("out=%q err=%v", out, err)
+		}},
 		{"EvaluateFile(missing)", func(h *histEnv) string {
 			out, err := textwire.EvaluateFile(h.absFile+".gone", nil)
 			return fmt.Sprintf("out=%q err=%v", out, err)
@@ -223,7 +276,7 @@ func init() {
 	core.Register(&core.Check{
 		ID:    "C16",
 		Level: "exploration",
-		Rule: "histories are all sequences up to length 2 (quick) / 3 (thorough), sampled ones a step longer and random ones of length 30, over 23 concrete operations on a fixed template tree: String of a layout+component+loop page with struct data, of a page reading user.name with a Go struct, with a map holding name and Name, with a lower-case-only map, of two pages that fail at run time after producing output, of a missing name, of a layout name, of a page calling reverse/append/slice/prepend on data arrays; Response ok/failing/missing (the failing ones render the error page through the string API); EvaluateString ok/failing; EvaluateFile ok/missing - on 3 directory/extension settings x debug on/off x custom error page none/valid/failing; also renders without data that assign at top level followed by renders that read the name, and loops that fail in a later pass followed by other loops. " +
+		Rule: "histories are all sequences up to length 2 (quick) / 3 (thorough), sampled ones a step longer and random ones of length 30, over 30 concrete operations on a fixed template tree: String of a layout+component+loop page with struct data, of a page reading user.name with a Go struct, with a map holding name and Name, with a lower-case-only map, of two pages that fail at run time after producing output, of a missing name, of a layout name, of a page calling reverse/append/slice/prepend on data arrays; Response ok/failing/missing (the failing ones render the error page through the string API); EvaluateString ok/failing; EvaluateFile ok/missing - on 3 directory/extension settings x debug on/off x custom error page none/valid/failing; also renders without data that assign at top level followed by renders that read the name, loops that fail in a later pass followed by other loops, one page with call arguments built from prefix operators rendered with two data sets, two struct types that print the same type name, and one long-lived pointer that first holds an unsupported value and is then repaired. " +
 			"Each step's observation (output, or message+line+path; body and returned error for Response) is compared with the same operation issued first on a fresh load; after every step the verif hooks VerifFingerprint (loaded ASTs) and VerifState (configuration) must equal their values after load. distinct_nontrivial = distinct (configuration, history) pairs",
 		Assumptions: []string{
 			"the baseline of an operation is its result as the first call of a fresh process that loaded the same tree with the same configuration (one child process per operation and configuration)",
@@ -269,8 +322,16 @@ func init() {
 					base = map[int]string{}
 					c.State[bkey] = base
 				}
+				// (the working directory is replaced by a placeholder, so that the workers of a run can share them)
+				shared := filepath.Join(filepath.Dir(c.WorkDir), "c16-baselines")
+				os.MkdirAll(shared, 0o755)
 				for _, o := range seq {
 					if _, ok := base[o]; ok {
+						continue
+					}
+					cache := filepath.Join(shared, fmt.Sprintf("%d-%d", cfgNo, o))
+					if b, err := os.ReadFile(cache); err == nil {
+						base[o] = string(b)
 						continue
 					}
 					exe, _ := os.Executable()
@@ -281,7 +342,11 @@ func init() {
 						c.Inconclusive(fmt.Sprintf("baseline process for %s failed: %v", ops[o].name, err))
 						return
 					}
-					base[o] = string(out)
+					base[o] = strings.ReplaceAll(string(out), c.WorkDir, "<workdir>")
+					tmp := fmt.Sprintf("%s.%d", cache, os.Getpid())
+					if os.WriteFile(tmp, []byte(base[o]), 0o644) == nil {
+						os.Rename(tmp, cache)
+					}
 					c.Count("baselines_from_fresh_processes", 1)
 				}
 				if !h.load(c) {
@@ -293,6 +358,7 @@ func init() {
 					if c.Guard(func() { obs = ops[o].run(h) }) {
 						return
 					}
+					obs = strings.ReplaceAll(obs, c.WorkDir, "<workdir>")
 					if obs != base[o] {
 						c.Violation("history:"+ops[o].name, fmt.Sprintf("step %d %s gave\n%s\nbut as first call on a fresh load it gives\n%s", step+1, ops[o].name, clipS(obs, 600), clipS(base[o], 600)), desc)
 						return
